@@ -74,6 +74,31 @@ Section Take.
     destruct l as [|x l]; [reflexivity|]. rewrite IH. cbn [length firstn]. cbn [Nat.leb]. destruct (Nat.leb n (length l)); reflexivity.
   Qed.
 End Take.
+(* the documented idiom `takewhile_inclusive(lambda _: dist.generated_mass < threshold, dist.get_mutation_configs(theta))`: the items are
+   paired with the mass generated once they have been yielded; the result stops with the FIRST configuration at which the generated mass
+   reaches the threshold (that configuration included), and is everything when the threshold is never reached before the last item *)
+From Coq Require Import QArith.
+Section Mass.
+  Context {A : Type}.
+  Definition below (thr : Q) (x : A * Q) : bool := negb (Qle_bool thr (snd x)).      (* generated_mass < threshold *)
+
+  Theorem gen_collect_until_mass : forall (thr : Q) (l : list (A * Q)),
+    (takewhile_inclusive (below thr) l = l /\ Forall (fun x => (snd x < thr)%Q) (removelast l)) \/
+    exists pre x rest, takewhile_inclusive (below thr) l = pre ++ [x] /\ l = pre ++ x :: rest /\ (thr <= snd x)%Q /\
+                       Forall (fun y => (snd y < thr)%Q) pre.
+  Proof.
+    intros thr l.
+    assert (Hb : forall x, below thr x = true -> (snd x < thr)%Q).
+    { intros x H. unfold below in H. apply negb_true_iff in H. apply Qnot_le_lt. intros Hle. apply Qle_bool_iff in Hle. congruence. }
+    assert (Hf : forall pre, Forall (fun y => below thr y = true) pre -> Forall (fun y => (snd y < thr)%Q) pre).
+    { intros pre H. induction H as [|y pre Hy _ IH]; constructor; [apply Hb; exact Hy | exact IH]. }
+    destruct (gen_takewhile_inclusive_stop (below thr) l) as [[H1 H2] | [pre [x [rest [H1 [H2 [H3 H4]]]]]]].
+    - left. split; [exact H1 | apply Hf; exact H2].
+    - right. exists pre, x, rest. repeat split; [exact H1 | exact H2 | | apply Hf; exact H4].
+      unfold below in H3. apply negb_false_iff in H3. apply Qle_bool_iff. exact H3.
+  Qed.
+End Mass.
+Print Assumptions gen_collect_until_mass.
 Print Assumptions gen_parallelize_is_ordered_map.
 Print Assumptions gen_takewhile_inclusive_stop.
 Print Assumptions gen_take_n_spec.
